@@ -7,6 +7,7 @@ TIE       the pybind outputs with ignore lists are also compared with the model 
 """
 import copy
 import json
+import os
 import random
 import re
 
@@ -97,6 +98,10 @@ def case(idx, payload):
     res["text"] = text
     if not cands:
         return res
+    if (cfg_kw or {}).get("p_serialize"):
+        # prefer a namespaced class that has serialize(): the generators keep serialization state while they walk the classes
+        pref = [x for x in cands if x[2] and any(mm.kind == 'method' and mm.name == "serialize" for mm in x[3].members)]
+        cands = pref or cands
     content, i, path, c = rng.choice(cands)
     names = streams.model_call("icpp", text)
     if names.startswith("ERR"):
@@ -153,6 +158,98 @@ def case(idx, payload):
                 d = dict(expected=str(mb)[:200], got=str(ma)[:200])
             res["bad"] = dict(kind="spec", what="MATLAB: ignoring class %s is not equivalent to deleting its declaration" % key,
                               input=text, input_deleted=text_del, ignore=[key], **d)
+            return res
+        # the .m files of the OTHER classes / functions are those of the full input (up to the gateway ids, which are renumbered)
+        mfull = impl_matlab([text], "m", [], True)
+        if mfull[0] == "ok" and mb[0] == "ok":
+            norm = lambda t: re.sub(r"m_wrapper\(\d+", "m_wrapper(#", t)   # noqa: E731
+            for fn, body in mb[1].items():
+                if fn.endswith(".m") and fn in mfull[1] and norm(body) != norm(mfull[1][fn]):
+                    res["bad"] = dict(kind="spec", what="MATLAB: deleting class %s changes the generated file %s of another entity" % (key, fn),
+                                      input=text, input_deleted=text_del, **streams.first_diff(norm(mfull[1][fn]), norm(body)))
+                    return res
+    return res
+
+
+MI_MEMBERS = ["Solver();", "Solver(const This::Params& p);", "void configure(const This::Params& p);", "This::Params params() const;",
+              "T first() const;", "This copy() const;", "static This Create(T seed);", "void swap(This& other);", "This::Params defaults;",
+              "double norm() const;", "void apply(const T& x) const;", "static This::Params Defaults();", "void both(const T& x, This::Params p);",
+              "std::vector<T> all() const;", "This::Mode mode;"]
+
+
+def multi_inst_case(idx, payload):
+    """a class template with several instantiations: ignoring ONE instantiation == removing it from the instantiation list
+    (both generators), and the bindings of the other instantiations are those of the full input"""
+    seed, _ = payload
+    rng = random.Random(seed * 1000003 + idx + 31337)
+    pool = ["ns::Dense", "ns::Sparse", "ns::Banded", "double", "ns::Tri"]
+    args = rng.sample(pool, rng.randint(2, 4))
+    members = rng.sample(MI_MEMBERS, rng.randint(2, 6))
+    with_xml = rng.random() < 0.4
+    n_doc = rng.randint(2, 3)
+    if with_xml:
+        members += ["void fill(int value);", "void fill(double value);"][:rng.randint(1, 2)]
+    if not any(mm.startswith("Solver(") for mm in members):
+        members.insert(0, "Solver();")
+    head = "namespace ns { " + " ".join("class %s { %s(); };" % (a[4:], a[4:]) for a in pool if a.startswith("ns::")) + " }\n"
+    tail = "\nnamespace lin { class After { After(); double value() const; }; }\n"
+
+    def mk(lst):
+        return head + "namespace lin {\ntemplate<T = {%s}>\nclass Solver {\n  %s\n};\n}" % (", ".join(lst), "\n  ".join(members)) + tail
+    k = rng.randrange(len(args))
+    victim = args[k]
+    text, text_del = mk(args), mk(args[:k] + args[k + 1:])
+    cpp = "lin::Solver<%s>" % victim
+    base = victim.split("::")[-1]
+    key = "lin::Solver" + base[0].upper() + base[1:]
+    res = dict(idx=idx, text=text, bad=None, kinds=["pybind_multi_inst", "matlab_multi_inst"])
+    xml = ""
+    if with_xml:
+        # Doxygen documents the template (under its plain name) and, for good measure, each instantiation
+        import tempfile
+        xml = tempfile.mkdtemp(prefix="verif_c15x_")
+        names = ["lin::Solver"] + ["lin::Solver<%s>" % a_ for a_ in args] + ["lin::After"]
+        open(os.path.join(xml, "index.xml"), "w").write("<doxygenindex>" + "".join(
+            '<compound refid="c%d" kind="class"><name>%s</name></compound>' % (i, nm.replace("<", "&lt;").replace(">", "&gt;"))
+            for i, nm in enumerate(names)) + "</doxygenindex>")
+        for i, nm in enumerate(names):
+            open(os.path.join(xml, "c%d.xml" % i), "w").write(
+                '<doxygen><compounddef id="c%d" kind="class"><compoundname>x</compoundname><sectiondef kind="public-func">' % i + "".join(
+                    '<memberdef kind="function" id="m%d"><type>void</type><name>fill</name><argsstring>(%s value)</argsstring>'
+                    '<param><type>%s</type><declname>value</declname></param><briefdescription><para>Doc %d of class %d.</para>'
+                    '</briefdescription><detaileddescription></detaileddescription></memberdef>' % (j, t, t, j, i)
+                    for j, t in enumerate(["int", "double", "char"][:n_doc])) + '</sectiondef></compounddef></doxygen>')
+        res["kinds"].append("pybind_multi_inst_xml")
+    try:
+        a = impl_pybind(text, streams.TPL_MIN, "m", [''], True, [cpp], None, xml)
+        b = impl_pybind(text_del, streams.TPL_MIN, "m", [''], True, [], None, xml)
+        full = impl_pybind(text, streams.TPL_MIN, "m", [''], True, [], None, xml)
+    finally:
+        if xml:
+            import shutil
+            shutil.rmtree(xml, ignore_errors=True)
+    if a != b:
+        d = streams.first_diff(b[1], a[1]) if a[0] == b[0] == "ok" else dict(expected=str(b)[:200], got=str(a)[:200])
+        res["bad"] = dict(kind="spec", what="pybind: ignoring instantiation %s is not equivalent to removing it from the instantiation list" % cpp,
+                          input=text, input_deleted=text_del, ignore=[cpp], **d)
+        return res
+    if full[0] == "ok" and b[0] == "ok":
+        fb = set(class_blocks(full[1]))
+        for blk in class_blocks(b[1]):
+            if blk not in fb:
+                res["bad"] = dict(kind="spec", what="pybind: removing instantiation %s changes the binding of another class" % cpp,
+                                  input=text, input_deleted=text_del, changed_block=blk[:400])
+                return res
+    ma = impl_matlab([text], "m", [key], True)
+    mb = impl_matlab([text_del], "m", [], True)
+    if ma != mb:
+        if ma[0] == mb[0] == "ok":
+            from props._matlab_common import files_diff
+            d = files_diff(mb[1], ma[1])
+        else:
+            d = dict(expected=str(mb)[:200], got=str(ma)[:200])
+        res["bad"] = dict(kind="spec", what="MATLAB: ignoring instantiation %s is not equivalent to removing it from the instantiation list" % key,
+                          input=text, input_deleted=text_del, ignore=[key], **d)
     return res
 
 
@@ -160,7 +257,12 @@ def run(ctx, n, off=0, collect=True):
     first = None
     # second part: the same simple class names in different namespaces
     same_names = dict(homonym=True, max_depth=2, extra_kinds=['ns', 'ns', 'cls', 'cls'])
-    for r in fw.run_cases(case, [(ctx.seed + off, None)] * n + [(ctx.seed + off + 7, same_names)] * (n // 2)):
+    # third part: classes with serialize() (the generators keep per-class serialization state)
+    serial = dict(p_serialize=0.6, max_decls=5, extra_kinds=['cls', 'cls', 'ns'])
+    results = list(fw.run_cases(case, [(ctx.seed + off, None)] * n + [(ctx.seed + off + 7, same_names)] * (n // 2)
+                                + [(ctx.seed + off + 9, serial)] * (n // 3)))
+    results += list(fw.run_cases(multi_inst_case, [(ctx.seed + off, None)] * (n // 4)))
+    for r in results:
         if "crash" in r:
             raise RuntimeError(r["crash"])
         if collect:
